@@ -133,7 +133,6 @@ def rule_miller(fx, rep):
     # what the line helper and the step functions compute (polynomial-ring domain)
     from props import c03lines
     import polyring as PR
-    c03lines.ell_rule(fx, rep, ELL)
     lim = PR.MAX_DEG, PR.MAX_TERMS
     PR.MAX_DEG, PR.MAX_TERMS = 120, 40000000
     try:
@@ -141,6 +140,7 @@ def rule_miller(fx, rep):
     finally:
         PR.MAX_DEG, PR.MAX_TERMS = lim
     ml_body = INL.inlined(fx, ML, lambda q: INL.is_private_helper(fx, q) and q != ELL and q.startswith(ML + '::'))
+    MUL014 = 'bls12_381::fq12::Fq12::mul_by_014'
     ncoef = len(steps)
     n_scen = 0
     bad = []
@@ -149,7 +149,7 @@ def rule_miller(fx, rep):
             items = []
             for j, (pz, qz) in enumerate(combo):
                 p_prep = Agg([Agg([Lin.atom('p%dx' % j), Lin.atom('p%dy' % j), Int(pz, 1)])], ('G1Prepared', 'G1Prepared'))
-                coeffs = Agg([] if qz else [('c', j, n) for n in range(ncoef)], ('vec', 'Vec'))
+                coeffs = Agg([] if qz else [Agg([Agg([('cf', j, n, i_, k_) for k_ in range(2)]) for i_ in range(3)]) for n in range(ncoef)], ('vec', 'Vec'))
                 q_prep = Agg([coeffs, Int(qz, 1)], ('G2Prepared', 'G2Prepared'))
                 items.append(Agg([p_prep, q_prep]))
             events = []
@@ -162,17 +162,45 @@ def rule_miller(fx, rep):
                 # line(coefficient n of pair j) evaluated at p_j: ell multiplies by one of them, squaring doubles every
                 # exponent, conjugation (a ring automorphism) renames them -- so the *value* returned is compared, and
                 # the order of commuting factors between two squarings is immaterial
-                if res == ELL:
+                if res == MUL014 and len(args) == 4:
+                    # the line evaluation: f <- f * (c + (b x_P) w^2 + (a y_P) w^3) needs the operands
+                    # (coefficient 2, coefficient 1 scaled by x_P, coefficient 0 scaled by y_P) of ONE triple and its own pair's point
                     fv = fr.deref_operand(args[0])
-                    coef = fr.deref_operand(args[1])
-                    pt = fr.deref_operand(args[2])
-                    j = coef[1] if isinstance(coef, tuple) and coef and coef[0] == 'c' else None
-                    ptok = j is not None and isinstance(pt, Agg) and pt.items and isinstance(pt.items[0], Lin) and list(pt.items[0].t) == ['p%dx' % j]
+                    ops_ = [fr.deref_operand(a_) for a_ in args[1:]]
                     if not isinstance(fv, Lin):
                         return False
-                    atom = 'L(%d,%d)' % (j, coef[2]) if ptok else 'line(%r) at the point of another pair / untracked' % (coef,)
+
+                    def dec(v, slot, coord):
+                        # -> (j, n) when v is Fq2 coefficient `slot` of triple (j, n), each component scaled by p_j's `coord` (or unscaled)
+                        if not (isinstance(v, Agg) and len(v.items) == 2):
+                            return None
+                        got = set()
+                        for k_, x in enumerate(v.items):
+                            if coord is not None:
+                                if not (isinstance(x, tuple) and len(x) == 3 and x[0] == 'scaled'):
+                                    return None
+                                x, by = x[1], x[2]
+                            else:
+                                by = None
+                            if not (isinstance(x, tuple) and len(x) == 5 and x[0] == 'cf' and x[3] == slot and x[4] == k_):
+                                return None
+                            if coord is not None and by != 'p%d%s' % (x[1], coord):
+                                return None
+                            got.add((x[1], x[2]))
+                        return got.pop() if len(got) == 1 else None
+                    ids = [dec(ops_[0], 2, None), dec(ops_[1], 1, 'x'), dec(ops_[2], 0, 'y')]
+                    if ids[0] is not None and ids[0] == ids[1] == ids[2]:
+                        atom = 'L(%d,%d)' % ids[0]
+                    else:
+                        atom = 'a product with operands that are not (c, b*x_P, a*y_P) of one coefficient triple and its own point'
                     fr.store_through(args[0], fv.add(Lin.atom(atom)))
                     return True
+                if nm == 'mul_assign' and c.get('trait') == 'ff::Field' and len(args) == 2:
+                    a_ = fr.deref_operand(args[0])
+                    b_ = fr.deref_operand(args[1])
+                    if isinstance(a_, tuple) and len(a_) == 5 and a_[0] == 'cf' and isinstance(b_, Lin) and len(b_.t) == 1 and list(b_.t.values()) == [1]:
+                        fr.store_through(args[0], ('scaled', a_, list(b_.t)[0]))
+                        return True
                 if nm in ('square', 'mul_assign') and c.get('trait') == 'ff::Field':
                     fv = fr.deref_operand(args[0])
                     if not isinstance(fv, Lin):
@@ -239,7 +267,7 @@ def rule_miller(fx, rep):
                     fr.storev(t['dest'], Agg([], ('vec', 'Vec')))
                     return True
                 return bitlin.transfer(I, fr, t, c, pth)
-            I = exp.Interp(fx, 'none', inline=lambda q: q.endswith('G1Prepared::is_zero') or q.endswith('G2Prepared>::is_zero') or q.endswith('G2Prepared::is_zero') or q.endswith('CurveAffine>::is_zero'),
+            I = exp.Interp(fx, 'none', inline=lambda q: q.endswith('G1Prepared::is_zero') or q.endswith('G2Prepared>::is_zero') or q.endswith('G2Prepared::is_zero') or q.endswith('CurveAffine>::is_zero') or INL.is_private_helper(fx, q),
                            extra_transfer=tr, max_steps=400000)
             I.body_override = {ML: ml_body}
             try:
